@@ -6,8 +6,9 @@ GenInit == Init /\ h = <<>>
 E(n) == [ev |-> n]
 GenNext ==
     \/ \E x \in Alg : Run(x) /\ h' = Append(h, [ev |-> "Run", x |-> x])
-    \/ Tick /\ h' = Append(h, E("Tick"))
-    \/ (~(\E x \in Alg : Avail(x)) /\ UNCHANGED vars /\ h' = Append(h, E("Tick")))      \* a dispatch that does nothing in the model
+    \/ \E sc \in BOOLEAN : Tick(sc) /\ h' = Append(h, [ev |-> "Tick", sc |-> sc])
+    \/ WorkerArrive /\ h' = Append(h, E("WorkerArrive"))
+    \/ (~(\E x \in Alg : Avail(x)) /\ park = {} /\ free = 0 /\ UNCHANGED vars /\ h' = Append(h, [ev |-> "Tick", sc |-> FALSE]))      \* a dispatch that does nothing in the model
     \/ \E x \in Alg, ok \in BOOLEAN, new \in BOOLEAN : Reply(x, ok, new) /\ h' = Append(h, [ev |-> "Reply", x |-> x, ok |-> ok, new |-> new])
     \/ \E x \in Alg : OldReply(x) /\ h' = Append(h, [ev |-> "OldReply", x |-> x])
     \/ CompleteReload /\ h' = Append(h, E("CompleteReload"))
@@ -22,9 +23,15 @@ GenNext ==
 GenSpec == GenInit /\ [][GenNext]_gvars
 (* guided instance: b is executing, then its upstream a is re-run and fails -- the scheduler withdraws b's target while
    b is still out on a worker (its `doing` entry goes, the unit does not) -- and from there everything *)
-Prefix == << [ev |-> "Run", x |-> B], E("Tick"), [ev |-> "Run", x |-> A], E("Tick"), [ev |-> "Reply", x |-> A, ok |-> FALSE, new |-> FALSE] >>
+PT == [ev |-> "Tick", sc |-> FALSE]
+Prefix == << [ev |-> "Run", x |-> B], PT, [ev |-> "Run", x |-> A], PT, [ev |-> "Reply", x |-> A, ok |-> FALSE, new |-> FALSE] >>
 GuidedNext == GenNext /\ (Len(h) < Len(Prefix) => h'[Len(h')] = Prefix[Len(h) + 1])
 GuidedSpec == GenInit /\ [][GuidedNext]_gvars
+(* guided instance 2 (worker scarcity): new data is stored (archive due), a unit is released while no worker is there
+   and waits in the farm -- and from there everything: workers arriving, scarce and plentiful passes, submissions *)
+Prefix2 == << [ev |-> "Run", x |-> A], PT, [ev |-> "Reply", x |-> A, ok |-> TRUE, new |-> FALSE], [ev |-> "Run", x |-> A], [ev |-> "Tick", sc |-> TRUE] >>
+Guided2Next == GenNext /\ (Len(h) < Len(Prefix2) => h'[Len(h')] = Prefix2[Len(h) + 1])
+Guided2Spec == GenInit /\ [][Guided2Next]_gvars
 View == vars
 Emit == PrintT(<<"SCHED", ToJson([h |-> h'])>>)
 EmitS10 == (RandomElement(1..10) = 1) => Emit
